@@ -93,4 +93,12 @@ example : uplo 1 (run { toy with finder := fun _ _ => .pinf } 1 2 (St.init [iv 2
     (run { toy with finder := fun _ _ => .pinf } 1 2 (St.init [iv 2 10, .mk .ninf .pinf] .pinf)).buffer.length = 3 := by
   decide +kernel
 
+/-- the hypothesis on the contractor matters: a contractor that empties every box whose `x` starts at 2 loses the minimiser
+    `x = 2` of `[2,8]`, and the loop then reports `uplo = 5 > 2 = f(2)` -/
+def toyBad : Policy := { toy with ctc := fun L c => match c with
+    | [.mk (.fin l) _, _] => if l == 2 then [.empty, .empty] else toy.ctc L c
+    | _ => toy.ctc L c }
+
+example : uplo 1 (run toyBad 1 50 (St.init [iv 2 8, .mk .ninf .pinf] .pinf)) = .fin 5 := by decide +kernel
+
 end Ibex.C07loop
